@@ -30,8 +30,8 @@ ASSUMPTIONS = [
     "AuxData uses types this API has codecs for (unknown types are property C14)",
 ]
 REQUIRED_TAGS = {
-    "quick": ["modules>=2", "b:address-0", "b:value-0", "b:label-all-false", "b:label-none", "b:unknown-attr", "aux:ir", "aux:module", "ref:symaddraddr"],
-    "thorough": ["modules>=2", "b:address-0", "b:value-0", "b:label-all-false", "b:label-none", "b:unknown-attr", "aux:ir", "aux:module", "ref:symaddraddr"],
+    "quick": ["second-generation-edits", "modules>=2", "b:address-0", "b:value-0", "b:label-all-false", "b:label-none", "b:unknown-attr", "aux:ir", "aux:module", "ref:symaddraddr"],
+    "thorough": ["second-generation-edits", "modules>=2", "b:address-0", "b:value-0", "b:label-all-false", "b:label-none", "b:unknown-attr", "aux:ir", "aux:module", "ref:symaddraddr"],
 }
 
 
@@ -140,6 +140,9 @@ def run_case(case):
                     "C01:unread-auxdata-bytes-rewritten",
                     "%s aux %r: %s -> %s" % (where, key, holder1.aux_data[key].data.hex(), holder2.aux_data[key].data.hex()),
                 )
+    second_generation_edits(g, case, r, ir2, node, res)
+    if res.failures:
+        return res
     # third generation: every AuxData of ir2 has been read by snapshot()
     try:
         m3 = parse(save(ir2))
@@ -152,10 +155,103 @@ def run_case(case):
     return res
 
 
+def perturb_jv(tree, jv):
+    """a different value of the same type (for assignments to loaded tables)"""
+    name, subs = tree
+    if name in auxref.INT_TYPES:
+        lo, hi = auxref.int_range(name)
+        return jv + 1 if jv < hi else jv - 1
+    if name == "bool":
+        return not jv
+    if name == "string":
+        return jv + "\u00e9"
+    if name in ("float", "double"):
+        return {"f": "4008000000000000"} if jv["f"] != "4008000000000000" else {"f": "3ff0000000000000"}
+    if name == "UUID":
+        return {"u": "%032x" % ((int(jv["u"], 16) ^ 1) | (1 << 120))}
+    if name == "Offset":
+        return {"o": jv["o"], "d": (jv["d"] + 1) % (1 << 64)}
+    if name == "sequence":
+        return jv + jv[:1] if jv else jv
+    if name in ("set", "mapping"):
+        return jv[1:] if jv else jv
+    if name == "tuple":
+        return [perturb_jv(subs[0], jv[0])] + jv[1:]
+    if name == "variant":
+        return {"i": jv["i"], "v": perturb_jv(subs[jv["i"]], jv["v"])}
+    return jv
+
+
+def second_generation_edits(g, case, r, ir2, node, res):
+    """A loaded IR is edited through the API (AuxData assigned without having
+    been read on this object, attributes, payloads, a new symbol) and must
+    round-trip again: loaded-then-edited IRs are IRs built through the API too."""
+    edits = case.get("edits") or []
+    if not edits:
+        return
+    from vlib import tngrammar
+
+    res.tag("second-generation-edits")
+    ir_fresh = g.IR.load_protobuf_file(io.BytesIO(save(ir2)))  # nothing read on this object yet
+    lookup = ir_fresh.get_by_uuid
+    expected_aux = {}
+    holders = [(r.spec["ir"], ir_fresh)] + [(mi["spec"], lookup(r.uuid(mi["spec"]))) for mi in r.mods]
+    for e in edits:
+        kind = e % 5
+        if kind == 0:
+            for hs, holder in holders:
+                for a in hs["aux"]:
+                    tree, jv = r.aux_value(a)
+                    new = perturb_jv(tree, jv)
+                    holder.aux_data[a["key"]].data = auxref.to_python(tree, new, g, lookup)
+                    expected_aux[(id(hs), a["key"])] = (tree, new)
+        elif kind == 1 and r.mods:
+            m = lookup(r.uuid(r.mods[e % len(r.mods)]["spec"]))
+            m.name = m.name + "'"
+            m.rebase_delta = -m.rebase_delta - 1
+        elif kind == 2:
+            bis = [lookup(r.uuid(bi)) for mi in r.mods for bi in mi["intervals"]]
+            if bis:
+                bi = bis[e % len(bis)]
+                bi.address = None if bi.address is not None else 0
+        elif kind == 3:
+            syms = [lookup(r.uuid(sy)) for mi in r.mods for sy in mi["symbols"]]
+            if syms:
+                sy = syms[e % len(syms)]
+                if sy.referent is not None or sy.value is None:
+                    sy.value = 0
+                else:
+                    sy.value = None
+        elif kind == 4 and r.mods:
+            mi = r.mods[e % len(r.mods)]
+            m = lookup(r.uuid(mi["spec"]))
+            target = [lookup(r.uuid(b)) for b in mi["blocks"] + mi["proxies"]]
+            import uuid as _uuid
+
+            g.Symbol("added", uuid=_uuid.UUID(int=(0xADD << 100) | e), payload=target[e % len(target)] if target else 7, module=m)
+    snap_c = snapshot.snapshot(g, ir_fresh)
+    try:
+        ir4 = g.IR.load_protobuf_file(io.BytesIO(save(ir_fresh)))
+    except Exception as ex:  # noqa
+        res.fail(pbt.exception_bucket("C01:edited-loaded-ir-roundtrip", ex), repr(ex))
+        return
+    d = snapshot.diff(snap_c, snapshot.snapshot(g, ir4))
+    if d:
+        res.fail("C01:edited-loaded-ir-roundtrip-differs", d)
+    for hs, holder in [(r.spec["ir"], ir4)] + [(mi["spec"], ir4.get_by_uuid(r.uuid(mi["spec"]))) for mi in r.mods]:
+        for a in hs["aux"]:
+            if (id(hs), a["key"]) in expected_aux and holder is not None:
+                tree, new = expected_aux[(id(hs), a["key"])]
+                want = auxref.expected_python(tree, new, g, ir4.get_by_uuid)
+                msg = auxref.same(tree, want, holder.aux_data[a["key"]].data, g)
+                if msg:
+                    res.fail("C01:assigned-auxdata-not-written", "%r %s: %s" % (a["key"], tngrammar.to_string(tree), msg))
+
+
 def strategy():
     from hypothesis import strategies as st
 
-    return st.fixed_dictionaries({"spec": specmod.specs()})
+    return st.fixed_dictionaries({"spec": specmod.specs(), "edits": st.one_of(st.just([]), st.lists(st.integers(0, 50), min_size=1, max_size=4))})
 
 
 def run_job(job):
